@@ -417,15 +417,18 @@ class PrimalDualHybridGradient(Alg):
             xp = self.x_device.xp
             x_diff = self.x - x_old
             resid_x = xp.linalg.norm(x_diff / self.tau**0.5).item()
+            x_ext_diff = self.x + theta * x_diff - self.x_ext
+            resid_x_ext = xp.linalg.norm(x_ext_diff / self.tau**0.5).item()
             backend.copyto(self.x_ext, self.x + theta * x_diff)
 
-        # The residual measures the change of both primal and dual variables.
+        # The residual measures the change of the whole state: the primal and
+        # dual variables and the extrapolated point the next update starts from.
         with self.u_device:
             xp = self.u_device.xp
             u_diff = self.u - u_old
             resid_u = xp.linalg.norm(u_diff / self.sigma**0.5).item()
 
-        self.resid = (resid_x**2 + resid_u**2) ** 0.5
+        self.resid = (resid_x**2 + resid_x_ext**2 + resid_u**2) ** 0.5
 
     def _done(self):
         return (self.iter >= self.max_iter) or (self.resid <= self.tol)
